@@ -89,6 +89,22 @@ def seeded_items(prop: Optional[str]) -> List[Dict[str, object]]:
     return out
 
 
+def benign_patch_items(prop: Optional[str]) -> List[Dict[str, object]]:
+    """The behaviour-preserving refactorings of /verif/benign (independent authors; suite re-run by me: 143 passed each)
+    as additional must-stay-silent items - every patch against every property."""
+    import glob
+    from sa import rules as registry
+    out: List[Dict[str, object]] = []
+    root = os.path.join(os.path.dirname(os.path.dirname(os.path.abspath(__file__))), "benign")
+    props = [prop] if prop is not None else list(registry.PROPS)
+    for pf in sorted(glob.glob(os.path.join(root, "*", "patch.diff"))):
+        bid = os.path.basename(os.path.dirname(pf))
+        for p in props:
+            out.append({"id": f"refactor-{bid}@{p}", "prop": p, "patch": pf, "edits": [], "kind": "benign",
+                        "what": "behaviour-preserving refactoring " + bid})
+    return out
+
+
 def selftest(repo: str = "/repo", prop: Optional[str] = None, jobs: int = 16) -> Tuple[bool, List[Dict[str, object]]]:
     items: List[Dict[str, object]] = []
     for m in seeded_items(prop):
@@ -100,6 +116,7 @@ def selftest(repo: str = "/repo", prop: Optional[str] = None, jobs: int = 16) ->
         if prop is None or prop in b["props"]:  # type: ignore[operator]
             for p in (b["props"] if prop is None else [prop]):  # type: ignore[union-attr]
                 items.append(dict(b, prop=p, kind="benign", id=f"{b['id']}@{p}"))
+    items.extend(benign_patch_items(prop))
     results: List[Dict[str, object]] = []
     with ProcessPoolExecutor(max_workers=jobs) as ex:
         for it, r in zip(items, ex.map(run_one, [(repo, it) for it in items])):
